@@ -28,6 +28,11 @@ func checkC17(c *Ctx) {
 	r182(c, "R17.4 no-wait-while-holding-a-lock")
 	// pause/stop drain both slots at the same time, each bounded by the one drain timeout (shared with C03)
 	r033(c, "R17.5 drains-run-concurrently-and-join")
+	// the timeouts given on the command line are the ones the proxy bounds its waits with (shared with C20)
+	rFlagsBoundToCommand(c, "R17.6 flags-bound-to-the-command-object")
+	// disposal reaches every target only while the target lists are not aliased / rewritten by anything but the refresh
+	// (shared with C09)
+	rRotationOnlyRefreshed(c, "R17.7 rotation-written-only-by-the-refresh")
 }
 
 // commandReach: functions a command handler runs synchronously: static calls, closure arguments,
